@@ -428,7 +428,15 @@ def make_body(case):
         # the name of the target may end like ANOTHER format ('save dimacs g.gml'):
         # the format given explicitly decides
         path = os.path.join(tmpdir(), 'g_%d.%s' % (os.getpid(), case.get('save_ext', save)))
-        spec = spec + ['save', save, path]
+        if case.get('save_first'):
+            # the directive written before the other options: what is saved
+            # (and returned) still is the graph with every option applied
+            i = 1
+            while i < len(spec) and as_float(spec[i]) is not None:
+                i += 1
+            spec = spec[:i] + ['save', save, path] + spec[i:]
+        else:
+            spec = spec + ['save', save, path]
 
     def body():
         if path and not os.path.exists(path):
@@ -824,6 +832,13 @@ def cases(tier, seed):
             else:
                 add('bipartite', ['regular', L, Rr, dg], mode='hash',
                     horizon=90 if not thorough else 200, max_execs=60000)
+    # more than a million candidate pairs, sides of different size, a third of
+    # the pairs requested (the dense strategy at a realistic size); one scripted
+    # generator, same oracle
+    big_glrm = [[1001, 1000, 333700], [1200, 900, 1000]] + ([[1000, 1001, 400000]] if thorough else [])
+    for (L, Rr, m_) in big_glrm:
+        add('bipartite', ['glrm', L, Rr, m_], mode='plain', max_dev=0, default='mix', default_seed=seed,
+            horizon=5000000, max_execs=1)
     add('bipartite', ['glrm', 2, 2])
     add('bipartite', ['glrd', 2, 2, 1, 1])
     add('bipartite', ['regular', 2])
@@ -881,6 +896,21 @@ def cases(tier, seed):
         if fmt != 'dot' or thorough:
             add('simple', ['gnm', 4, 3], save=fmt, mode='plain', max_dev=2, max_execs=300)
             add('simple', ['gnd', 4, 2], save=fmt, mode='plain', max_dev=1, max_execs=300)
+    for fmt in ('kthlist', 'gml'):
+        add('simple', ['grid', 2, 2, 'addedges', 1], save=fmt, mode='plain', save_first=True,
+            base=det_base('simple', ['grid', '2', '2']), max_dev=2, max_execs=400)
+        add('simple', ['empty', 3, 'plantclique', 2], save=fmt, mode='plain', save_first=True,
+            base=det_base('simple', ['empty', '3']))
+        add('simple', ['complete', 3, 'splitedges', 1], save=fmt, mode='plain', save_first=True,
+            base=det_base('simple', ['complete', '3']))
+        add('simple', ['empty', 4, 'plantclique', 2, 'addedges', 1], save=fmt, mode='plain', save_first=True,
+            base=det_base('simple', ['empty', '4']), max_dev=2, max_execs=400)
+        add('bipartite', ['empty', 2, 3, 'plantbiclique', 1, 2], save=fmt, mode='plain', save_first=True,
+            base=det_base('bipartite', ['empty', '2', '3']))
+        add('bipartite', ['empty', 2, 2, 'addedges', 2], save=fmt, mode='plain', save_first=True,
+            base=det_base('bipartite', ['empty', '2', '2']), max_dev=2, max_execs=400)
+        # an option that cannot be met stays refused wherever it is written
+        add('simple', ['complete', 3, 'addedges', 1], save=fmt, save_first=True, unmeetable=True)
     sfm = ('kthlist', 'gml', 'dimacs', 'dot')
     bfm = ('kthlist', 'gml', 'matrix', 'dot')
     for i, fmt in enumerate(sfm):
